@@ -83,6 +83,9 @@ type BasicTxn struct {
 	// fnsMu guards the callback slices, a transaction can be shared between goroutines.
 	fnsMu sync.Mutex
 
+	// committed is true once the transaction has been committed successfully.
+	committed bool
+
 	successFns []func()
 	errorFns   []func()
 	discardFns []func()
@@ -115,6 +118,9 @@ func (t *BasicTxn) Commit(ctx context.Context) error {
 
 	err := t.txn.Commit()
 	t.fnsMu.Lock()
+	if err == nil {
+		t.committed = true
+	}
 	if err != nil {
 		fns = t.errorFns
 		asyncFns = t.errorAsyncFns
@@ -137,6 +143,12 @@ func (t *BasicTxn) Discard(ctx context.Context) {
 	t.txn.Discard()
 
 	t.fnsMu.Lock()
+	if t.committed {
+		// Discarding a committed transaction has no effect (it is commonly deferred),
+		// nothing was rolled back and the discard callbacks must not run.
+		t.fnsMu.Unlock()
+		return
+	}
 	asyncFns := t.discardAsyncFns
 	fns := t.discardFns
 	t.fnsMu.Unlock()
